@@ -40,10 +40,20 @@ func vfStub_filepath_Glob(pattern string) ([]string, error) {
 	return nil, nil
 }
 
-func vfStub_filepath_Clean(p string) string { return p }
+// filepath.Clean on the spellings the scenarios use: leading "./" elements
+// are dropped. Files are identified by their clean name.
+func vfStub_filepath_Clean(p string) string { return VfCanon(p) }
+
+func VfCanon(p string) string {
+	for len(p) > 2 && p[0] == '.' && p[1] == '/' {
+		p = p[2:]
+	}
+	return p
+}
 
 func vfStub_os_ReadFile(name string) ([]byte, error) {
 	VfEnv.Log = append(VfEnv.Log, "read:"+name)
+	name = VfCanon(name)
 	if VfEnv.ReadErr[name] {
 		return nil, errors.New("open " + name + ": permission denied")
 	}
